@@ -8,12 +8,14 @@ CONSTANTS
   PlusOne = TRUE
   UnsatGe = TRUE
   ImsLe = TRUE
+  ImsLocalTime = FALSE
   Tokens <- AttackTokens
   MaxTokens = 2
   StartPaths <- AttackSeeds
   Fbs <- AllFbs
   Ranges <- NoRangeOnly
-  Imss <- NoImsOnly
+  Zones <- UtcOnly
+  ImsFor <- NoImsOnly
 INVARIANT Containment
 INVARIANT ServedIsInside
 INVARIANT NothingElseIs404
@@ -25,3 +27,4 @@ INVARIANT ContentRangeConsistent
 INVARIANT ZeroSizeIgnoresRange
 INVARIANT UnsatCarriesSize
 INVARIANT NotModifiedNoBody
+INVARIANT DecisionIndependentOfZone
